@@ -9,12 +9,14 @@ import (
 	"github.com/wollac/iota-crypto-demo/pkg/curl"
 	"pgregory.net/rapid"
 
+	"verifharness/fc"
 	"verifharness/h"
 	ref "verifharness/ref/curl"
 	"verifharness/ref/trit"
 )
 
 func TestMain(m *testing.M) {
+	h.FirstCallsChild(fc.Curl()) // never returns in a first-call child process
 	if err := trit.SelfCheck(); err != nil {
 		panic(err)
 	}
@@ -569,3 +571,6 @@ func TestConcurrent(t *testing.T) {
 func FuzzGenHistories(f *testing.F) {
 	h.FuzzSub(f, h.Sub[history]{Prop: "C06", Name: "histories-" + buildVariant, Gen: genHistory, Check: checkHistory})
 }
+
+// which public entry point is called first in a process (and by how many goroutines at once)
+func TestFirstCalls(t *testing.T) { h.FirstCallsSub(t, "C06", fc.Curl(), 6) }
